@@ -67,11 +67,18 @@ pub enum Flavor {
     Sgr,
 }
 
+/// Sizes at and around common thresholds.
+pub const INTERESTING_SIZES: [usize; 27] = [
+    15, 16, 17, 31, 32, 33, 63, 64, 65, 127, 128, 129, 255, 256, 257, 511, 512, 513, 1023, 1024, 1025, 4095, 4096, 4097, 8191, 8192, 8193,
+];
+
 /// Per-run swarm configuration of the generator.
 #[derive(Clone, Debug)]
 pub struct Swarm {
     pub weights: [u32; NKINDS],
     pub target_len: usize,
+    /// produce exactly `target_len` bytes (threshold runs)
+    pub exact: bool,
 }
 
 pub fn swarm(rng: &mut Rng, flavor: Flavor, max_len: usize) -> Swarm {
@@ -99,8 +106,18 @@ pub fn swarm(rng: &mut Rng, flavor: Flavor, max_len: usize) -> Swarm {
     let scales = [3usize, 6, 10, 16, 32, 64, 128, 512, 2048, 4096, 20_000, 70_000];
     let scale_w = [600u32, 1000, 1000, 800, 800, 600, 400, 200, 100, 100, 12, 6];
     let scale = scales[rng.weighted(&scale_w)].min(max_len.max(1));
-    let target_len = rng.range(0, scale);
-    Swarm { weights, target_len }
+    let mut target_len = rng.range(0, scale);
+    let mut exact = false;
+    // thresholds: powers of two and their neighbours are where buffers, caches and "fast paths"
+    // change behaviour; hit them on purpose now and then
+    if rng.chance(1, 60) {
+        let t = *rng.pick(&INTERESTING_SIZES);
+        if t <= max_len {
+            target_len = t;
+            exact = true;
+        }
+    }
+    Swarm { weights, target_len, exact }
 }
 
 pub fn workload(rng: &mut Rng, flavor: Flavor, max_len: usize) -> Workload {
@@ -115,9 +132,11 @@ pub fn workload(rng: &mut Rng, flavor: Flavor, max_len: usize) -> Workload {
             wl.toks.push(Tok { start, end, kind });
         }
     }
-    // keep within the hard bound without cutting a multi-byte character for text flavours
-    if wl.bytes.len() > max_len {
-        let mut cut = max_len;
+    // keep within the hard bound (or hit the exact size asked for) without cutting a multi-byte
+    // character for text flavours
+    let bound = if sw.exact { sw.target_len.min(max_len) } else { max_len };
+    if wl.bytes.len() > bound {
+        let mut cut = bound;
         if flavor != Flavor::Bytes {
             while cut > 0 && (wl.bytes[cut] & 0xC0) == 0x80 {
                 cut -= 1;
@@ -502,6 +521,15 @@ pub fn cuts(rng: &mut Rng, wl: &Workload, char_safe: bool) -> Vec<usize> {
                     points.push(rng.range(1, n - 1));
                 }
             }
+        }
+    }
+    // chunk boundaries exactly at threshold sizes
+    if rng.chance(1, 12) {
+        let t = *rng.pick(&INTERESTING_SIZES);
+        let mut p = t;
+        while p < n && points.len() < 4096 {
+            points.push(p);
+            p += t;
         }
     }
     // a few duplicate points give empty chunks
